@@ -82,8 +82,13 @@ def gen_node(rng, depth, used, in_seq, array_in_seq):
     dimn = []
     for _ in range(rank):
         dimn.append(fresh(rng, u))
+    # the maps may be stored in another order than the dimensions of the array (perm), and the array may carry its dimension
+    # names raw or quoted (rawdims)
+    perm = list(range(rank))
+    if rng.random() < 0.4:
+        rng.shuffle(perm)
     return ("grid", gname, rng.choice(DTYPES[:10]), shape, tuple(dimn), [rng.choice(DTYPES[:10]) for _ in range(rank)],
-            rng.random() < 0.7)
+            rng.random() < 0.7, tuple(perm), rng.random() < 0.5)
 
 
 def has_array_in_seq(node, in_seq=False):
@@ -122,9 +127,11 @@ def build(node, nrec=()):
     named = node[6] if len(node) > 6 else True
     g = GridType(name)
     from pydap.lib import _quote
-    g[name] = BaseType(name, np.zeros(shape, dtype=dt), dims=tuple(_quote(d) for d in dimn) if named else ())
-    for d, n, t in zip(dimn, shape, mdt):
-        g[d] = BaseType(d, np.zeros(n, dtype=t))
+    perm = node[7] if len(node) > 7 else tuple(range(len(shape)))
+    rawdims = node[8] if len(node) > 8 else False
+    g[name] = BaseType(name, np.zeros(shape, dtype=dt), dims=tuple(d if rawdims else _quote(d) for d in dimn) if named else ())
+    for j in perm:
+        g[dimn[j]] = BaseType(dimn[j], np.zeros(shape[j], dtype=mdt[j]))
     return g
 
 
@@ -169,11 +176,12 @@ def expected(node, q, in_seq=False):
         return ("base", q(name), ty, tuple(shape), dn)
     if kind in ("struct", "seq"):
         return (kind, q(node[1]), tuple(expected(k, q, in_seq or kind == "seq") for k in node[2]))
-    _, name, dt, shape, dimn, mdt, named = node
+    _, name, dt, shape, dimn, mdt, named = node[:7]
+    perm = node[7] if len(node) > 7 else tuple(range(len(shape)))
     import numpy as np
     adims = tuple(q(d) for d in dimn) if named else ((q(name),) if len(shape) == 1 else ())
     arr = ("base", q(name), TYPES[np.dtype(dt).char][1], tuple(shape), adims)
-    maps = tuple(("base", q(d), TYPES[np.dtype(t).char][1], (n,), (q(d),)) for d, n, t in zip(dimn, shape, mdt))
+    maps = tuple(("base", q(dimn[j]), TYPES[np.dtype(mdt[j]).char][1], (shape[j],), (q(dimn[j]),)) for j in perm)
     return ("grid", q(name), arr, maps)
 
 
@@ -322,6 +330,16 @@ def main():
         ds = DatasetType(dsname)
         for ki, k in enumerate(kids):
             c = build(k)
+            bases = [j for j, m in enumerate(k[2]) if m[0] == "base"] if k[0] == "struct" else []
+            if bases and (i < 8 or rng.random() < 0.25):
+                # a member assigned once more under its name (another element type): the container holds ONE such member, the new
+                # one, in last position
+                j = rng.choice(bases)
+                old_m = k[2][j]
+                new_m = ("base", old_m[1], "f8" if old_m[2] != "f8" else "i4", (), None)
+                c[new_m[1]] = build(new_m)
+                kids[ki] = k = ("struct", k[1], k[2][:j] + k[2][j + 1:] + [new_m])
+                stats["replaced_member"] = stats.get("replaced_member", 0) + 1
             if k[0] == "struct" and len(k[2]) >= 2 and rng.random() < 0.4:
                 # the members of a Structure in the order of a selection (a sub-selection that re-orders and may leave members out)
                 sel = rng.sample(k[2], rng.randint(1, len(k[2])))
